@@ -46,7 +46,7 @@ theorem keeps_viYankbuf {cb : Bool} : Keeps cb viYankbuf := by
 theorem keeps_digits {cb : Bool} (f : Nat) (n c : Int) : Keeps cb (viPrefix.digits f n c) := by
   induction f generalizing n c with
   | zero => unfold viPrefix.digits; keeps
-  | succ f ih => unfold viPrefix.digits; keeps; apply ih
+  | succ f ih => unfold viPrefix.digits; keeps; all_goals apply ih
 
 theorem keeps_viPrefix {cb : Bool} : Keeps cb viPrefix := by
   unfold viPrefix
